@@ -206,4 +206,34 @@ theorem parallelApply_cons (f : ZF K) (t : List (ZF K)) (xs : List K) :
   unfold parallelApply
   rw [List.foldl_cons, addSig_zeros xs _ (apply_length f xs)]
 
+/-! ### ParallelFilter.denpoly as coded: right as long as `__add__` never takes its shortcut -/
+
+/-- what the constructor guarantees of every filter object: valid, denominator a polynomial in
+`z⁻¹` with non-zero constant term -/
+def Norm (f : ZF K) : Prop := Valid f ∧ IsPoly f.den ∧ C07.coeff f.den 0 ≠ 0
+
+/-- no step of `reduce(operator.add, [f0] + t)` finds equal denominators -/
+def NoShortcut : ZF K → List (ZF K) → Prop
+  | _, [] => True
+  | f0, g :: t => C07.eq f0.den g.den = false ∧ ∀ h, add f0 g = .ok h → NoShortcut h t
+
+theorem foldlM_add_den (t : List (ZF K)) : ∀ (f0 : ZF K), Norm f0 → (∀ g ∈ t, Norm g) → NoShortcut f0 t →
+    ∃ h, t.foldlM add f0 = .ok h ∧ Norm h ∧ h.den = t.foldl (fun acc g => C07.mul acc g.den) f0.den := by
+  induction t with
+  | nil => intro f0 h0 _ _; exact ⟨f0, rfl, h0, rfl⟩
+  | cons g t ih =>
+    intro f0 h0 hgs hns
+    obtain ⟨hne, hrest⟩ := hns
+    have hg := hgs g List.mem_cons_self
+    have hd0 : C07.coeff (C07.mul f0.den g.den) 0 ≠ 0 := by
+      rw [coeff_mul_zero h0.2.1 hg.2.1 h0.1.2.1.1 hg.1.2.1.1]; exact mul_ne_zero h0.2.2 hg.2.2
+    have hadd : add f0 g = .ok ⟨C07.add (C07.mul f0.num g.den) (C07.mul g.num f0.den), C07.mul f0.den g.den⟩ := by
+      unfold add
+      rw [if_neg (by rw [hne]; simp)]
+      exact ofPolys_causal (wf_add _ _) (wf_mul _ _) (isPoly_mul h0.2.1 hg.2.1) hd0
+    have hnorm : Norm (⟨C07.add (C07.mul f0.num g.den) (C07.mul g.num f0.den), C07.mul f0.den g.den⟩ : ZF K) :=
+      ⟨⟨wf_add _ _, wf_mul _ _, causal_ne_nil hd0⟩, isPoly_mul h0.2.1 hg.2.1, hd0⟩
+    obtain ⟨h, e, hn, hd⟩ := ih _ hnorm (fun x hx => hgs x (List.mem_cons_of_mem _ hx)) (hrest _ hadd)
+    exact ⟨h, by rw [List.foldlM_cons, hadd]; exact e, hn, by rw [hd]; rfl⟩
+
 end ALV.C05
